@@ -118,10 +118,10 @@ Proof.
 Qed.
 
 (* ---- fields ----------------------------------------------------------------------------------------------- *)
-Lemma stored_nonempty : forall v, stored (nonempty_value v) = nonempty_value v.
+Lemma stored_parse : forall E' fs f raw, stored (parse_value E' fs f raw) = parse_value E' fs f raw.
 Proof.
-  intros [x|]; [|reflexivity]. unfold nonempty_value. destruct (v_text x) eqn:Ht; [reflexivity|].
-  unfold stored. rewrite Ht. reflexivity.
+  intros E' fs f raw. unfold parse_value. destruct raw as [|x raw]; [reflexivity|].
+  destruct (parse_loc E' (field_type E' f) _ (x :: raw)) as [[st di] wa]. reflexivity.
 Qed.
 
 Lemma apply_field_inner : forall f raw c c1 evs b,
@@ -132,7 +132,7 @@ Lemma apply_field_inner : forall f raw c c1 evs b,
   /\ c_groups c1 = c_groups c /\ c_status c1 = c_status c.
 Proof.
   intros f raw c c1 evs b H. unfold apply_field in H.
-  set (new := nonempty_value (option_map (truncate_value E) (parse_value E (c_fields c) f raw))) in *.
+  set (new := parse_value E (c_fields c) f (truncate (max_field_chars E) raw)) in *.
   destruct (ofvalue_eqb new (fget f (c_fields c))) eqn:Heq; cbn [negb] in H; inversion H; subst c1 evs b.
   - repeat split; try reflexivity; discriminate.
   - split; [reflexivity|]. split; [reflexivity|]. split; [discriminate|].
@@ -140,7 +140,7 @@ Proof.
     intros _ gs Hs. destruct Hs as [_ [_ [_ [_ [_ [_ [_ [Hf _]]]]]]]]. specialize (Hf f).
     assert (Hfs : c_fields (with_groups (with_fields c (fset f new (c_fields c))) gs) = fset f new (c_fields c))
       by (destruct c; reflexivity).
-    rewrite Hfs, fget_fset_same in Hf. unfold new in Hf at 1. rewrite stored_nonempty in Hf. fold new in Hf.
+    rewrite Hfs, fget_fset_same in Hf. unfold new in Hf at 1. rewrite stored_parse in Hf. fold new in Hf.
     rewrite Hf in Heq. rewrite (proj2 (ofvalue_eqb_eq _ _) eq_refl) in Heq. discriminate.
 Qed.
 
